@@ -44,6 +44,16 @@ def main():
         subprocess.run(["/venv/bin/python", os.path.join(VERIF, "harness", "extract.py")], stdout=subprocess.DEVNULL)
         # the evidence files describe the unchanged tree, not this excursion
         subprocess.run(["git", "-C", VERIF, "checkout", "--", "evidence"], stdout=subprocess.DEVNULL)
+    # a replay must be a genuine witness: the recorded case fails with the change and passes on the clean tree
+    for c, r in results.items():
+        m = re.search(r"replay=(\S+)", r.get("violation") or "")
+        if m and os.path.exists(m.group(1)) and "no-failing-input-found" not in (r.get("violation") or ""):
+            q = subprocess.run([os.path.join(VERIF, "check"), c, "--replay", m.group(1)], stdout=subprocess.PIPE,
+                               stderr=subprocess.STDOUT, cwd=VERIF, env=dict(os.environ, MOCLO_REPO=REPO))
+            ok = "passes on this tree" in q.stdout.decode()
+            r["replay_passes_on_clean_tree"] = ok
+            if not ok:
+                print(sid, c, "WARNING: the replay also fails on the clean tree (not a genuine witness)")
     meta.setdefault("detection", {}).update(results)
     json.dump(meta, open(os.path.join(d, "meta.json"), "w"), indent=1)
     return 0
